@@ -28,7 +28,13 @@ type nwInput struct {
 	Sticky  int      `json:"sticky"`
 	Seed    int64    `json:"seed"`
 	MM      bool     `json:"mm,omitempty"`   // user-managed memory on the guard allocator
+	Fine    bool     `json:"fine,omitempty"` // also park around the delete mark (oracle-only runs: the writer model is coarser)
 }
+
+// systematic exploration (nitro-exh): decision chooser supplied by Explore, and what it decided
+var nwCoarse func([]int) int
+var nwDecisions []int
+var nwDecEnabled [][]int
 
 func nwGen(r *rand.Rand) *nwInput {
 	in := &nwInput{Cmp: r.Intn(2), Sticky: []int{0, 30, 60}[r.Intn(3)], Seed: r.Int63()}
@@ -98,6 +104,9 @@ func nwRun(in *nwInput, r *rand.Rand, sink *CaseSink, replay bool) {
 	nt := len(in.Progs)
 	points := []int{nitro.VerifPtDelGot}
 	spoints := []int{skiplist.VerifPtInsPub}
+	if in.Fine {
+		spoints = append(spoints, skiplist.VerifPtSdCas, skiplist.VerifPtSdLoad)
+	}
 	sch := NewSched(nt, append(points, spoints...)...)
 	nitro.VerifYieldHook = func(p int) {
 		counter(p)
@@ -119,6 +128,11 @@ func nwRun(in *nwInput, r *rand.Rand, sink *CaseSink, replay bool) {
 		// the barrier's free queue is a skiplist too and passes the same label)
 		if p == skiplist.VerifPtInsPub {
 			if tid, ok := sch.Tid(); ok && inPut[tid] && !inFreeq[tid] {
+				sch.Hook(p)
+			}
+		}
+		if in.Fine && (p == skiplist.VerifPtSdCas || p == skiplist.VerifPtSdLoad) {
+			if tid, ok := sch.Tid(); ok && !inFreeq[tid] {
 				sch.Hook(p)
 			}
 		}
@@ -190,7 +204,35 @@ func nwRun(in *nwInput, r *rand.Rand, sink *CaseSink, replay bool) {
 		})
 	}
 	var chooser func([]int) int
-	if len(in.Choices) > 0 {
+	if nwCoarse != nil {
+		// systematic mode: the running writer changes only where the enumeration decides, and it is
+		// asked only at operation boundaries and right after a delete mark was set
+		last := -1
+		nwDecisions, nwDecEnabled = nil, nil
+		chooser = func(en []int) int {
+			has := func(t int) bool {
+				for _, e := range en {
+					if e == t {
+						return true
+					}
+				}
+				return false
+			}
+			if last >= 0 && has(last) {
+				n := len(sch.Trace)
+				atSwitch := n > 0 && sch.Trace[n-1][0] == last && (sch.Trace[n-1][1] == 0 ||
+					(n > 1 && sch.Trace[n-1][1] == skiplist.VerifPtSdLoad && sch.Trace[n-2][1] == skiplist.VerifPtSdCas && sch.Trace[n-2][0] == last))
+				if !atSwitch {
+					return last
+				}
+			}
+			c := nwCoarse(en)
+			nwDecisions = append(nwDecisions, c)
+			nwDecEnabled = append(nwDecEnabled, append([]int(nil), en...))
+			last = c
+			return c
+		}
+	} else if len(in.Choices) > 0 {
 		chooser = replayChooser(in.Choices)
 	} else {
 		chooser = randomChooser(rand.New(rand.NewSource(in.Seed)), in.Sticky)
@@ -388,6 +430,81 @@ func nwRun(in *nwInput, r *rand.Rand, sink *CaseSink, replay bool) {
 func init() {
 	commands["nitro"] = nwCommand("C03", false)
 	commands["nitro-mm"] = nwCommand("C04", true)
+	commands["nitro-exh"] = nwExhCommand
+}
+
+// nitro-exh: pile-up programs on items of the current epoch (physical deletes), all coarse schedules
+func nwExhCommand(a runArgs) error {
+	sink := NewSink(a.out, "C03", "", a.seed)
+	sink.meta.Rule = "SYSTEMATIC, oracle only: 3..4 neighbouring items put in the current epoch (so deletes unlink physically), three writer goroutines each deleting one of them and possibly putting or looking up a deleted one again; every schedule in which the running writer changes only at operation boundaries and right after a delete mark has been set is executed (depth-first, capped per program); oracle: brute-force linearizability of the call/return history, the next snapshot is the outcome of a linearization, Count() = scan; both comparators, Go-managed and user-managed memory"
+	top := rand.New(rand.NewSource(a.seed))
+	total := 0
+	runProg := func(base *nwInput) {
+		runs := Explore(12, 1500, func(ch func([]int) int) ([]int, [][]int) {
+			in := *base
+			in.Choices = nil
+			nwCoarse = ch
+			nwRun(&in, rand.New(rand.NewSource(in.Seed)), sink, true)
+			nwCoarse = nil
+			return nwDecisions, nwDecEnabled
+		})
+		total += runs
+	}
+	if a.replay != "" {
+		bs, err := os.ReadFile(a.replay)
+		if err != nil {
+			return err
+		}
+		var rp struct {
+			Case nwInput `json:"case"`
+		}
+		if err := json.Unmarshal(bs, &rp); err != nil {
+			return err
+		}
+		nwRun(&rp.Case, rand.New(rand.NewSource(rp.Case.Seed)), sink, true)
+		sink.cases = nil
+		return sink.Flush()
+	}
+	for p := 0; p < a.n; p++ {
+		cmp := p % 2
+		nk := 3 + top.Intn(2)
+		item := func(k int) []int {
+			bs := []byte{byte('a' + k)}
+			if cmp == 1 {
+				bs = nitro.KVToBytes(bs, []byte{'v'})
+			}
+			return b2i(bs)
+		}
+		base := &nwInput{Cmp: cmp, Seed: top.Int63(), Fine: true, MM: p%3 == 2}
+		base.Setup = []mvOp{{Op: "neww"}, {Op: "neww"}, {Op: "neww"}}
+		if top.Intn(2) == 0 {
+			// an earlier epoch with some of the keys, deleted again: dead versions in between
+			base.Setup = append(base.Setup, mvOp{Op: "put", W: 0, Bs: item(top.Intn(nk))}, mvOp{Op: "snap"})
+		}
+		base.Setup = append(base.Setup, mvOp{Op: "snap"})
+		for k := 0; k < nk; k++ {
+			base.Setup = append(base.Setup, mvOp{Op: "put", W: k % 3, Bs: item(k)})
+		}
+		first := nk - 1
+		if p > 0 {
+			first = top.Intn(nk)
+		}
+		for t := 0; t < 3; t++ {
+			victim := (first + nk - t) % nk
+			prog := []nwOp{{"del", item(victim)}}
+			if p == 0 && t == 0 {
+				prog = append(prog, nwOp{"put", item(victim)})
+			} else if p > 0 && top.Intn(3) > 0 {
+				again := (first + nk - top.Intn(3)) % nk
+				prog = append(prog, nwOp{[]string{"put", "put", "get"}[top.Intn(3)], item(again)})
+			}
+			base.Progs = append(base.Progs, prog)
+		}
+		runProg(base)
+	}
+	sink.meta.Extra = map[string]interface{}{"programs": a.n, "schedules": total}
+	sink.cases = nil
+	return sink.Flush()
 }
 
 func nwCommand(prop string, mm bool) func(a runArgs) error {
